@@ -85,6 +85,18 @@ func (e *Engine) runPath(st *State) {
 			st.decided = st.decided[:0]
 			e.reschedule(st, "")
 			st.NeedSched = false
+			if e.Opt.Preempt >= 0 && e.Opt.Dedup && len(st.replay) == 0 {
+				if d, ok := e.digest(st); ok {
+					if e.seen == nil {
+						e.seen = map[string]bool{}
+					}
+					if e.seen[d] {
+						e.res.Merged++
+						panic(abort{"merged", "state already explored on another schedule"})
+					}
+					e.seen[d] = true
+				}
+			}
 		}
 		e.step(st)
 		if st.Steps > e.Opt.MaxSteps {
